@@ -11,7 +11,7 @@ def dupDirectives : List Directive → List Name → List RErr
       [errAt (str "The directive \"@" ++ d.name ++ str "\" can only be used once at this location.") d.pos] else [])
       ++ dupDirectives rest (d.name :: seen)
 
-def uniqueDirectivesPerLocationStep (_ : Schema) (_ : QueryDoc) (e : Event) : List RErr :=
+def uniqueDirectivesPerLocationStep (_ : SV) (_ : QueryDoc) (e : Event) : List RErr :=
   match e.p with
   | .directiveList ds => dupDirectives ds []
   | _ => []
